@@ -95,6 +95,8 @@ pub fn p_strategy() -> BoxedStrategy<u64> {
         3 => Just(100u64),
         3 => 1u64..=150,
         1 => 6u64..=30,
+        // precisions at which p (+ guard digits) crosses the digit budget of u64 / u128
+        2 => prop_oneof![14u64..=21, 35u64..=40],
     ]
     .boxed()
 }
@@ -228,6 +230,36 @@ pub fn run(ctx: &Ctx) {
     let max_len = t.pick(400usize, 1500);
     let n = t.pick(100_000u64, 1_000_000);
     ctx.generated("random", "inv", n, "1..max digits, scales +-2000, both signs, p weighted to 1..5 and 100", move || free_strategy(max_len), check_inv);
+    ctx.generated(
+        "machine-word-coefficients",
+        "inv",
+        n,
+        "coefficients around 10^9, 2^32, 10^19, 2^64, 10^38, 2^128 (+- small and random in the top decade) x p in 1..40",
+        || {
+            (0..6usize, 0..4u8, any::<u64>(), any::<bool>(), -40i64..=40, 1u64..=40, 0..7u8)
+                .prop_map(|(which, how, r, neg, scale, p, mode)| {
+                    let base: BigInt = match which {
+                        0 => BigInt::from(10u8).pow(9),
+                        1 => BigInt::from(1) << 32,
+                        2 => BigInt::from(10u8).pow(19),
+                        3 => BigInt::from(1) << 64,
+                        4 => BigInt::from(10u8).pow(38),
+                        _ => BigInt::from(1) << 128,
+                    };
+                    let v: BigInt = match how {
+                        0 => &base + BigInt::from(r % 7) - 3,
+                        1 => &base - BigInt::from(1 + r % 1000),
+                        // anywhere between base and 1.9 * base
+                        2 => &base + (&base * BigInt::from(r % 900_000)) / BigInt::from(1_000_000),
+                        _ => &base + BigInt::from(r),
+                    };
+                    let v = if v <= BigInt::from(0) { BigInt::from(3) } else { v };
+                    InvCase { d: D::new(if neg { format!("-{}", v) } else { v.to_string() }, scale), p, mode }
+                })
+                .boxed()
+        },
+        check_inv,
+    );
     ctx.generated("terminating", "inv", n, "x = 2^i*5^j with random sign/scale, p tiny or around the exact length", terminating_strategy, check_inv);
     ctx.generated("near-power-of-ten", "inv", n / 2, "x = 99..9, 99..98, 100..0, 100..01, 100..02 (1..160 digits)", near_pow10_strategy, check_inv);
     ctx.generated("bit-lengths", "inv", n / 2, "integers of prescribed bit length 1..5000 (emphasis 1000..1150)", move || bitlen_strategy(t.pick(3000, 5000)), check_inv);
